@@ -250,7 +250,7 @@ theorem skippedChar_cinv (r : Reader) (c : Nat) (h : CInv r) : CInv (afterB r (s
 theorem skippedSpace_cinv (r : Reader) (h : CInv r) : CInv (afterB r (skippedSpace r)) := by
   have go : ∀ (q : Reader), CInv q → q.charWin ≠ [] →
       CInv (afterB r (if isWhitespace q.nel q.curChar = true then
-          (if (q.curChar &&& spaceMask) == 0 then BRes.ok true { (q.advance) with col := q.advance.col + 1 }
+          (if isPlainSpace q.curChar then BRes.ok true { (q.advance) with col := q.advance.col + 1 }
            else match handleEOL q.advance q.curChar with
             | .ok _ r => BRes.ok true r
             | .exc e r => BRes.exc e r
